@@ -94,30 +94,31 @@ def yieldPkg (e : Env) (roots : List (List Name × Tree)) (pkgs : List (List Nam
   | some rp => rp.2
   | none => []
 
-/-- the dotted module name of a yielded file (`find_suites`): the longest search path that is a
-prefix of the file's path *and* carries the package the file was yielded under is stripped
-(`options.prefix` is sorted longest first, stably), the extension removed, the package put in front -/
-def moduleName (e : Env) (roots : List (List Name × Tree)) (pkgs : List (List Name)) (path : List Name) :
-    Option (List Name) :=
+/-- the dotted names under which a yielded file can be imported (`find_suites`), in the order the
+code tries them: every search path that is a prefix of the file's path *and* carries the package
+the file was yielded under, longest first (`options.prefix` is sorted by length, stably); the
+prefix is stripped, the extension removed, the package put in front -/
+def moduleNames (e : Env) (roots : List (List Name × Tree)) (pkgs : List (List Name)) (path : List Name) :
+    List (List Name) :=
   let pkg := yieldPkg e roots pkgs path
   let cands := ((roots.map (·.1)).zip pkgs).filter
     (fun rp => rp.1.isPrefixOf path && rp.1.length < path.length && rp.2 == pkg)
   let sorted := PySort.isort (fun (a b : List Name × List Name) => decide (b.1.length ≤ a.1.length)) cands
-  match sorted with
-  | [] => none
-  | r :: _ =>
+  sorted.filterMap (fun r =>
     let rel := path.drop r.1.length
     match rel.getLast? with
     | none => none
-    | some f => (stripPyExt e f).map (fun noext => pkg ++ rel.dropLast ++ [noext])
+    | some f => (stripPyExt e f).map (fun noext => pkg ++ rel.dropLast ++ [noext]))
 
-/-- `find_suites`: the modules that get imported, in order: yielded files whose module name — the
-imported dotted name, package included — passes `--module` (`accept`) -/
+/-- the first name tried: under the longest matching search path -/
+def moduleName (e : Env) (roots : List (List Name × Tree)) (pkgs : List (List Name)) (path : List Name) :
+    Option (List Name) := (moduleNames e roots pkgs path).head?
+
+/-- `find_suites`: the modules that get imported, in order.  For each yielded file the candidate
+names are tried in order; a name rejected by `--module` (`accept`) makes the loop `continue` with the
+next (shorter) search path; the first accepted name is imported (and ends the loop: `break`). -/
 def importedModules (e : Env) (accept : List Name → Bool) (roots : List (List Name × Tree))
     (pkgs : List (List Name)) : List (List Name) :=
-  (findTestFiles e roots).filterMap (fun p =>
-    match moduleName e roots pkgs p with
-    | some m => if accept m then some m else none
-    | none => none)
+  (findTestFiles e roots).filterMap (fun p => (moduleNames e roots pkgs p).find? accept)
 
 end Ztr.Discovery
